@@ -71,7 +71,7 @@ pub fn int_of(v: &J) -> i64 {
 
 pub fn real_of(v: &J) -> f64 {
     match v["c"].as_str().unwrap() {
-        "nan" => f64::NAN, "pinf" => f64::INFINITY, "ninf" => f64::NEG_INFINITY, "nzero" => -0.0,
+        "nan" => f64::NAN, "nnan" => f64::from_bits(0xfff8000000000000), "pinf" => f64::INFINITY, "ninf" => f64::NEG_INFINITY, "nzero" => -0.0,
         "q25n" => f64::from_bits(0.25f64.to_bits() + 1),
         "p53" => 9007199254740992.0, "p53b" => 9007199254740994.0,
         "p63" => 9223372036854775808.0, "n63" => -9223372036854775808.0,
